@@ -128,11 +128,31 @@ func (sb *sandbox) materialise(want *rstate) error {
 		}
 		cur = &rstate{files: map[string]int{}, other: map[string]string{}}
 	}
+	// 1. remove what must not be there (stale other files first, then universe files and the directories they leave empty)
+	var rm []string
+	for f := range cur.other {
+		if _, ok := want.other[f]; !ok {
+			rm = append(rm, f)
+		}
+	}
+	sort.Slice(rm, func(i, j int) bool { return len(rm[i]) > len(rm[j]) })
+	for _, f := range rm {
+		os.RemoveAll(filepath.Join(sb.root, strings.TrimPrefix(f, "foreign:")))
+	}
+	if len(want.other) == 0 && len(cur.other) > 0 {
+		os.RemoveAll(filepath.Join(sb.root, ".spok"))
+	}
 	for f := range cur.files {
 		if _, ok := want.files[f]; !ok {
 			os.Remove(filepath.Join(sb.root, f))
+			for d := filepath.Dir(f); d != "." && d != "/"; d = filepath.Dir(d) {
+				if os.Remove(filepath.Join(sb.root, d)) != nil { // only succeeds on an empty directory
+					break
+				}
+			}
 		}
 	}
+	// 2. write what has to be there
 	for f, c := range want.files {
 		if cc, ok := cur.files[f]; !ok || cc != c {
 			p := filepath.Join(sb.root, f)
@@ -144,20 +164,6 @@ func (sb *sandbox) materialise(want *rstate) error {
 			os.Chtimes(p, fixedTime, fixedTime)
 		}
 	}
-	// other files: remove those not wanted (deepest first), then write
-	var rm []string
-	for f := range cur.other {
-		if _, ok := want.other[f]; !ok {
-			rm = append(rm, f)
-		}
-	}
-	sort.Slice(rm, func(i, j int) bool { return len(rm[i]) > len(rm[j]) })
-	for _, f := range rm {
-		os.RemoveAll(filepath.Join(sb.root, strings.TrimPrefix(f, "dir:")))
-	}
-	if len(want.other) == 0 && len(cur.other) > 0 {
-		os.RemoveAll(filepath.Join(sb.root, ".spok"))
-	}
 	var mk []string
 	for f := range want.other {
 		mk = append(mk, f)
@@ -168,11 +174,8 @@ func (sb *sandbox) materialise(want *rstate) error {
 		if cb, ok := cur.other[f]; ok && cb == b {
 			continue
 		}
-		if strings.HasPrefix(f, "dir:") {
-			if err := os.MkdirAll(filepath.Join(sb.root, strings.TrimPrefix(f, "dir:")), 0o755); err != nil {
-				return err
-			}
-			continue
+		if strings.HasPrefix(f, "foreign:") {
+			f = strings.TrimPrefix(f, "foreign:")
 		}
 		p := filepath.Join(sb.root, f)
 		os.MkdirAll(filepath.Dir(p), 0o755)
@@ -199,11 +202,7 @@ func (sb *sandbox) snapshot() (*rstate, error) {
 			return nil
 		}
 		if info.IsDir() {
-			ents, _ := os.ReadDir(p)
-			if len(ents) == 0 {
-				s.other["dir:"+rel] = ""
-			}
-			return nil
+			return nil // (empty directories are not part of the state; materialise removes them)
 		}
 		b, rerr := os.ReadFile(p)
 		if rerr != nil {
